@@ -78,9 +78,10 @@ def idx(r, size_hint=4, forms=("int", "list", "range", "slice", "all", "mask", "
         return {"t": "range", "a": r.randrange(64), "b": r.randrange(64)}
     if f == "slice":
         k = r.random()
+        st = r.choice([None, None, None, 2, 3])
         if k < 0.4:
-            return {"t": "slice", "b": r.randrange(64)}
-        return {"t": "slice", "a": r.randrange(64), "b": r.randrange(64), "open": k > 0.8}
+            return {"t": "slice", "b": r.randrange(64), "step": st}
+        return {"t": "slice", "a": r.randrange(64), "b": r.randrange(64), "open": k > 0.8, "step": st}
     if f == "mask":
         return {"t": "mask", "bits": [r.randrange(2) for _ in range(r.randint(2, 6))]}
     return "all"
@@ -258,7 +259,7 @@ def gen_op(r, dw, weights, cfg):
         return {"op": "delete_trainables", "view": gen_node_view(r, ref)}
     if kind == "connect":
         cls = r.choice(cfg["synapses"])
-        name = cls[:4] + "B" if r.random() < 0.15 else None
+        name = (cls[:4] + "B" if r.random() < 0.5 else cls[:3].lower() + "_syn") if r.random() < 0.2 else None  # "<name>_<param>" keys with an underscore in the name
         return {"op": "connect", "pre": r.randrange(1 << 16), "post": r.randrange(1 << 16), "cls": cls, "name": name}
     if kind == "init_states":
         return {"op": "init_states"}
